@@ -111,8 +111,10 @@ def run(prog, rep, tier='quick', config='default'):
         cands = [(c.fn, c) for c in holders] or [(ctor, None)]
         for (g, c) in cands:
             n_new += 1
-            ins = [x for x in g.calls if x.short in ('insert', 'entry', 'or_insert', 'or_insert_with') and
-                   re.search(r'HashMap<std::string::String, ' + re.escape(AFF), g.ty.get(x.arg_local(0), '') or '')]
+            # a constructor call inside `entry(id).or_insert_with(|| Affiliate::new(..))` is judged in the function owning the closure
+            scope = [g] + ([prog.owner_of(g)] if g.kind == 'Closure' else [])
+            ins = [x for h in scope for x in h.calls if x.short in ('insert', 'entry', 'or_insert', 'or_insert_with') and
+                   re.search(r'(HashMap|Entry)<.*std::string::String, ' + re.escape(AFF), h.ty.get(x.arg_local(0), '') or '')]
             k = '%s|affiliate-built-only-inside-the-interning-table' % g.name
             if ins:
                 rep.ok('R8f', k, where=(c.where() if c else '%s:%d' % (g.file, g.line)), fn=g.name,
